@@ -12,3 +12,10 @@ def layer_a(seed, tier, only=None, quick=25, thorough=400):
     r = L.run(seed, quick if tier == "quick" else thorough, only)
     nontriv = sum(v["cases"] for k, v in r["per_def"].items() if v["cases"] > 1)
     return dict(ok=r["ok"], cases=r["cases"], distinct_nontrivial=nontriv, defs=r["defs"], strata=r["strata"], samples=r["samples"], disagreements=r["disagreements"], errors=r["errors"])
+
+
+def graph_chi2(seed, tier, quick=60, thorough=2000):
+    from harness import chi2 as C
+
+    r = C.run(seed, quick if tier == "quick" else thorough)
+    return dict(ok=r["ok"], cases=r["cases"], distinct_nontrivial=r["edges"], graphs=r["graphs"], worlds=r["worlds"], samples=r["samples"], disagreements=r["disagreements"][:3])
